@@ -3,6 +3,7 @@
 #include "../Linklist.h"
 #include "../../Global.h"
 #include <shared_mutex>
+#include <mutex>
 #include <cstdint>
 #include <type_traits>
 
@@ -606,21 +607,21 @@ namespace MEM
     template<typename a, size_t b>
     void* BlockAllocSafe<a, b>::Alloc()
     {
-        std::shared_lock<std::shared_mutex> lock(mutex);
+        std::unique_lock<std::shared_mutex> lock(mutex);
         return super::Alloc();
     }
 
     template<typename a, size_t b>
     void BlockAllocSafe<a, b>::Free(void* ptr)
     {
-        std::shared_lock<std::shared_mutex> lock(mutex);
+        std::unique_lock<std::shared_mutex> lock(mutex);
         return super::Free(ptr);
     }
 
     template<typename a, size_t b>
     void BlockAllocSafe<a, b>::FreeAll()
     {
-        std::shared_lock<std::shared_mutex> lock(mutex);
+        std::unique_lock<std::shared_mutex> lock(mutex);
         // the parent will call its own version of Free()
         // so there won't be any recursive lock
         return super::FreeAll();
